@@ -137,6 +137,32 @@ def ref_blocks(s, t):
     return ("ok", c2, [tuple(o[c] for c in c2) for o in out])
 
 
+def block_variants(bt, s):
+    """the same block table with rows and columns re-ordered"""
+    rows = list(bt["rows"])
+    cols = list(bt["columns"])
+    out = []
+    if len(rows) > 1:
+        out.append(("rows reversed", dict(bt, rows=list(reversed(rows)))))
+        ck = [cols.index(c) for c in s["control_table_keys"]]
+        rk = [cols.index(c) for c in s["record_keys"]]
+        # sorted by block key, records ascending in the first block and descending in the others
+        byblock = {}
+        for r in rows:
+            byblock.setdefault(tuple(r[j] for j in ck), []).append(r)
+        arranged = []
+        for i, (k, rs) in enumerate(sorted(byblock.items(), key=repr)):
+            rs = sorted(rs, key=lambda r: repr(tuple(r[j] for j in rk)), reverse=(i % 2 == 1))
+            arranged.extend(rs)
+        out.append(("records in a different order in different blocks", dict(bt, rows=arranged)))
+    perm = list(reversed(range(len(cols))))
+    pc = [cols[j] for j in perm]
+    out.append(("columns reversed", {"columns": pc, "types": dict(bt["types"]), "rows": [tuple(r[j] for j in perm) for r in rows]}))
+    if len(rows) > 1:
+        out.append(("columns reversed, rows reversed", {"columns": pc, "types": dict(bt["types"]), "rows": [tuple(r[j] for j in perm) for r in reversed(rows)]}))
+    return out
+
+
 def block_types(s):
     ty = {c: "str" for c in s["record_keys"]}
     for c in s["control"]:
@@ -195,6 +221,19 @@ def work(specs, tier, open_ids):
                 part.count("traces_validated_against_impl")
                 if r2[0] != "ok" or not compare.EQ(r2, want):
                     part.violation(dict(case, backend=kind, blocks=compare.brief(b, 12), rows_back=compare.brief(r2, 12)), f"{kind}: blocks -> rows does not return the row records the blocks were made from")
+                    continue
+                # the same blocks with their rows and columns in other orders (a block table is a set of
+                # rows; records need not appear in the same relative order in every block)
+                bad_variant = None
+                for vname, bv in block_variants(bt, s):
+                    rv = transform(to_rows, bv, kind)
+                    part.count("traces_validated_against_impl")
+                    part.count("block_order_variants")
+                    if rv[0] != "ok" or not compare.EQ(rv, want):
+                        bad_variant = (vname, bv, rv)
+                        break
+                if bad_variant is not None:
+                    part.violation(dict(case, backend=kind, variant=bad_variant[0], blocks=bad_variant[1], rows_back=compare.brief(bad_variant[2], 12)), f"{kind}: blocks -> rows depends on the row / column order of the block table ({bad_variant[0]})")
                     continue
                 b2 = transform(inv2, as_table(r2, row_types(s)), kind)
                 part.count("traces_validated_against_impl")
